@@ -260,6 +260,13 @@ def run_tpcn(case):
                 res.violate("tpcn:law-unobservable", f"_propose made {len(rec) - 1} gamma draws (expected exactly one scale-mixture draw)", cc)
                 fail = True
                 break
+            # ... and with the degrees of freedom of that mode: the mixing variable is Gamma((d + nu_label) / 2, .)
+            nu_k = float(np.asarray(dofs, dtype=float)[assign])
+            if abs(rec[0][0] - 0.5 * (d + nu_k)) > 1e-9 * (1 + nu_k):
+                res.violate("tpcn:proposal-dof", f"walker carrying label {assign} of {K} modes (the other modes hold no walker): its mixing variable is drawn with shape {rec[0][0]!r}, "
+                            f"mode {assign} has nu={nu_k!r}, i.e. shape (d+nu)/2 = {0.5 * (d + nu_k)!r}", cc)
+                fail = True
+                break
             # the proposal of a walker is built around the mode of ITS OWN label (also when lower-numbered modes hold no walker)
             c_want = means[assign] + math.sqrt(1.0 - sigma ** 2) * (G[k] - means[assign])
             if per is None and np.max(np.abs(c - c_want)) > 1e-9:
